@@ -93,6 +93,12 @@ func (m *c02MMgr) ClearByID(_ string) {}
 
 type c02MUpstream struct {
 	cname bool
+	// ending says how the request's context ends while upstream resolves:
+	// endNone; endCancelBefore / endCancelAfter: cancel is called before /
+	// after the answer is written; endDeadline: the answer is written only
+	// once the context's deadline has passed.
+	ending int
+	cancel context.CancelFunc
 	asked []string
 	// resp is the response given to each asked question, by lower-case name.
 	resp map[string]*dns.Msg
@@ -110,8 +116,34 @@ func (u *c02MUpstream) ServeDNS(ctx context.Context, rw dnsserver.ResponseWriter
 	u.asked = append(u.asked, name)
 	u.resp[name] = resp.Copy()
 
-	return rw.WriteMsg(ctx, req, resp)
+	switch u.ending {
+	case endCancelBefore:
+		u.cancel()
+	case endDeadline:
+		<-ctx.Done()
+	}
+	err = rw.WriteMsg(ctx, req, resp)
+	if u.ending == endCancelAfter {
+		u.cancel()
+	}
+
+	return err
 }
+
+// How the request context ends, see [c02MUpstream.ending].
+const (
+	endNone = iota
+	endCancelBefore
+	endCancelAfter
+	endDeadline
+	nEndings
+)
+
+var c02EndingName = [nEndings]string{"-", "cancelled-before-upstream-answer", "cancelled-after-upstream-answer", "deadline-during-upstream"}
+
+// c02MDeadline is the request deadline of the endDeadline variant; upstream
+// waits for it on ctx.Done(), nothing is asserted about durations.
+const c02MDeadline = 3 * time.Millisecond
 
 // ---------------------------------------------------------------------------
 // Rig
@@ -153,6 +185,8 @@ type c02MRig struct {
 	// record / last: see c02MRunKeep.
 	record bool
 	last   string
+	// ending is the way the context of the next query ends.
+	ending int
 	entries []*querylog.Entry
 }
 
@@ -807,19 +841,35 @@ func c02MRunKeep(r *vrt.Run, rig *c02MRig, c c02MCase, keep bool) (fs []vrt.Find
 	rw := dnsserver.NewNonWriterResponseWriter(c02MLocal, net.UDPAddrFromAddrPort(c02MClient))
 	ctx := dnsserver.ContextWithRequestInfo(context.Background(), &dnsserver.RequestInfo{StartTime: time.Now()})
 	ctx = dnsserver.ContextWithServerInfo(ctx, &dnsserver.ServerInfo{Name: "srv", Addr: "127.0.0.1:53", Proto: dnsserver.ProtoDNS})
+	ended := rig.ending != endNone
+	rig.up.ending = rig.ending
+	if ended {
+		// The harness owns the request context, as the server does.
+		var cancel context.CancelFunc
+		if rig.ending == endDeadline {
+			ctx, cancel = context.WithTimeout(ctx, c02MDeadline)
+		} else {
+			ctx, cancel = context.WithCancel(ctx)
+		}
+		defer cancel()
+		rig.up.cancel = cancel
+	}
 	var err error
 	if p := vrt.Catch(func() { err = rig.handler.ServeDNS(ctx, rw, req) }); p != "" {
 		return vrt.F("mainmw/panic", "%s: panicked: %s", ctxt, p)
 	}
 	r.Trans(1 + len(rig.up.asked))
 	resp := rw.Msg()
-	if err != nil || resp == nil || len(rig.errs.errs) > 0 {
+	if !ended && (err != nil || resp == nil || len(rig.errs.errs) > 0) {
 		return vrt.F("mainmw/error", "%s: err=%v resp=%v collected=%v", ctxt, err, resp != nil, rig.errs.errs)
 	}
-	if len(rig.statIDs) != 1 {
+	if !ended && len(rig.statIDs) != 1 {
 		vrt.Fatalf("%s: rule statistics called %d times", ctxt, len(rig.statIDs))
 	}
-	gotSrc, _ := c02MSrc(cfg, rig.statIDs[0])
+	gotSrc := "?"
+	if len(rig.statIDs) == 1 {
+		gotSrc, _ = c02MSrc(cfg, rig.statIDs[0])
+	}
 	if rig.record {
 		rig.last = gotSrc + " " + vdns.Canon(resp, true)
 	}
@@ -846,6 +896,34 @@ func c02MRunKeep(r *vrt.Run, rig *c02MRig, c c02MCase, keep bool) (fs []vrt.Find
 				finals = append(finals, c02Final{racc[rk], "response"})
 			}
 		}
+	}
+
+	if ended {
+		// The request's context ended while upstream was resolving.  The
+		// statement does not say what such a requester gets (an error, no
+		// response and SERVFAIL are all fine), but whatever is written must not
+		// contain what the filter blocks: when every admitted verdict is
+		// "blocked", no record of the upstream answer may reach the client.
+		allBlocked := len(finals) > 0
+		for _, f := range finals {
+			allBlocked = allBlocked && f.Kind == vBlocked
+		}
+		switch {
+		case resp == nil:
+			r.Class("mw-ctx-end:" + c02EndingName[rig.ending] + " no-response")
+		case !allBlocked:
+			r.Class("mw-ctx-end:" + c02EndingName[rig.ending] + " not-blocked rcode=" + dns.RcodeToString[resp.Rcode])
+		default:
+			r.Class("mw-ctx-end:" + c02EndingName[rig.ending] + " " + finals[0].Stage + "-blocked rcode=" + dns.RcodeToString[resp.Rcode])
+			if rr, bad := c02AnyUpstreamData(resp); bad {
+				return vrt.F("mainmw-ctx-end/blocked-upstream-record-written",
+					"%s, request context %s: the statement admits only a blocked verdict (%s:%s) but the written message carries the upstream record %q: %s; collected errors: %v",
+					ctxt, c02EndingName[rig.ending], finals[0].Stage, finals[0].key(), rr, vdns.Canon(resp, true), rig.errs.errs)
+			}
+		}
+		r.State(fmt.Sprintf("e|%d|%v|%d|%d|%v", rig.ending, allBlocked, c.QType, c.Mode, resp == nil))
+
+		return nil
 	}
 
 	var reasons []string
@@ -1037,6 +1115,47 @@ func TestVerifC02MW(t *testing.T) {
 		})
 	}, func(c c02MCase) []vrt.Finding { return c02MRun(r, rig, c) })
 
+	// Tier c, the request context ends while upstream resolves: cancelled
+	// before / after upstream's answer is written, or its deadline passes
+	// (upstream answers only after ctx.Done()).  Response-side block rules on
+	// the CNAME target / answer address (and request-side rules, alone and
+	// together with them).
+	endResps := []respAssign{resps[1], resps[2], resps[3], resps[4]}
+	if thorough {
+		endResps = resps[1:]
+	}
+	vrt.Part(r, "mainmw-ctx-end", func(emit func(c02MECase)) {
+		c02ReqAssignments(kinds, 1, func(req [nSlots]int) {
+			for _, ra := range endResps {
+				cfg := c02Cfg{Req: req, Resp: ra.resp, RespTarget: ra.target, Flip: true}
+				for _, h := range c02Hosts[:2] {
+					for _, qt := range c02QTypes {
+						for _, cn := range []bool{false, true} {
+							if cn && qt != dns.TypeA && qt != dns.TypeAAAA {
+								continue
+							}
+							for _, m := range []int{mNullIP, mREFUSED} {
+								for e := endCancelBefore; e < nEndings; e++ {
+									if e == endDeadline && (req != ([nSlots]int{}) || m != mNullIP) {
+										// The deadline variant waits for real
+										// time: response-side rules only.
+										continue
+									}
+									emit(c02MECase{c02MCase{Cfg: cfg, Host: h, QType: qt, CNAME: cn, Switch: swOn, Mode: m, TTL: 10}, e})
+								}
+							}
+						}
+					}
+				}
+			}
+		})
+	}, func(c c02MECase) []vrt.Finding {
+		rig.ending = c.Ending
+		defer func() { rig.ending = endNone }()
+
+		return c02MRunKeep(r, rig, c.c02MCase, false)
+	})
+
 	// Tier c, histories: two queries of one requester, the second with the
 	// result caches as the first left them; what is written for the second
 	// must be what is written for it with empty caches (and both must conform
@@ -1096,6 +1215,12 @@ func TestVerifC02MW(t *testing.T) {
 
 	r.Finish()
 	os.Exit(0)
+}
+
+// c02MECase is a tier-c case whose request context ends during resolution.
+type c02MECase struct {
+	c02MCase
+	Ending int `json:"ending"`
 }
 
 // c02HMStep is one query of a middleware history.
